@@ -236,6 +236,20 @@ func Corruptions(p *Program) ([]*Program, []Corruption) {
 			q.Steps[i].Extra = map[string]string{"nosuchkey": "1"}
 			return true
 		})
+		if i > 0 && (p.Steps[i-1].Kind == "plugin" || p.Steps[i-1].Kind == "") {
+			prev := p.Steps[i-1].ID
+			for _, tag := range []string{"waitopt", "softopt"} {
+				tag := tag
+				emit("ill-typed-field-under-optional-tag", "integer input field `a` of step "+s.ID+" is a "+tag+" reference to a string output", func(q *Program) bool {
+					q.Steps[i].Input.Set("a", &Val{K: tag, Expr: &Expr{K: "out", Step: prev, Stage: "outputs", Output: "success", Path: []string{"s"}}})
+					return true
+				})
+				emit("unknown-field-under-optional-tag", "input field the plugin step does not have, given as a "+tag+" reference, in step "+s.ID, func(q *Program) bool {
+					q.Steps[i].Input.Set("nosuchfield", &Val{K: tag, Expr: &Expr{K: "out", Step: prev, Stage: "outputs", Output: "success", Path: []string{"v"}}})
+					return true
+				})
+			}
+		}
 		emit("stop-if-without-cancel-handler", "`stop_if` on step "+s.ID+" whose plugin step has no cancellation handler (the lifecycle disables the field)", func(q *Program) bool {
 			var src *Expr
 			if i > 0 && (q.Steps[i-1].Kind == "plugin" || q.Steps[i-1].Kind == "") {
